@@ -73,7 +73,10 @@ def r1(F, R):
     s_re, t_re, re_co = c05.reinsert_call(F, rs)
     late = [aw for aw in A.awaits(rs) if rs.site_reaches(s_fi, aw.poll_site) and not (aw.src_op and s_re in A.slice_back(rs, [aw.src_op]).sites)]
     R.check(not late, "no-await-after-finished-but-reinsert", s_fi, "", f"awaits after Finished: {[a.loc for a in late]}")
-    R.floor(6)
+    # a started attempt is driven to its end: the scheduler never abandons in-flight attempt futures
+    from .c08 import check_exit_requires_empty_in_flight
+    check_exit_requires_empty_in_flight(F, R, "started-attempts-are-driven-to-completion")
+    R.floor(7)
 
 
 def run_step_body(F, tree):
